@@ -500,6 +500,8 @@ def select(lst, idx):
     # the caller has established 0 <= idx < n on the current path (see SInterp.subscript)
     lo, hi = max(idx.lo, 0), min(idx.hi, n - 1)
     if lo > hi: raise IndexError('list index out of range')
+    aff = _affine_table(lst, idx, lo, hi)
+    if aff is not None: return aff
     items = [lift(x) for x in lst[lo:hi + 1]]
     if any(i is None for i in items): raise EngineError('symbolic index into a list of non-integers')
     rlo, rhi = min(i.lo for i in items), max(i.hi for i in items)
@@ -510,6 +512,36 @@ def select(lst, idx):
     for k in range(len(items) - 2, -1, -1):
         t = z3.If(idx.t == z3.BitVecVal(lo + k, iw), ext(items[k], w), t)
     return mk(t, rlo, rhi)
+
+_aff_tables = {}
+def _affine_table(lst, idx, lo, hi):
+    """lookup in a concrete table that is GF(2)-affine in the index bits (e.g. CRC tables): T[n] = T[0] xor XOR_i n_i*(T[2^i] xor T[0]),
+    checked on every entry; the lookup is then written as that xor of conditional constants (an exact identity, no ITE chain)"""
+    n = len(lst)
+    if lo != 0 or n < 4 or n & (n - 1) or hi != n - 1: return None
+    if not all(type(x) is int and x >= 0 for x in lst): return None
+    key = tuple(lst)
+    r = _aff_tables.get(key)
+    if r is None:
+        k = n.bit_length() - 1
+        base = lst[0]; cols = [lst[1 << i] ^ base for i in range(k)]
+        ok = True
+        for m in range(n):
+            v = base
+            for i in range(k):
+                if (m >> i) & 1: v ^= cols[i]
+            if v != lst[m]: ok = False; break
+        r = _aff_tables[key] = (base, cols) if ok else False
+    if r is False: return None
+    base, cols = r
+    if not any(cols) : return base
+    w = max(1, max(lst).bit_length())
+    t = z3.BitVecVal(base, w)
+    for i, cst in enumerate(cols):
+        if cst == 0: continue
+        bit = extract(i, i, idx.t) if i < idx.w else z3.BitVecVal(0, 1)
+        t = t ^ z3.If(bit == z3.BitVecVal(1, 1), z3.BitVecVal(cst, w), z3.BitVecVal(0, w))
+    return mk(t, 0, (1 << w) - 1)
 
 def ite(c, a, b):
     if not isinstance(c, (SymBool, SymInt)): return a if c else b
